@@ -12,9 +12,15 @@
 #include "valloc.h"
 #include "vpeer.h"
 #include "vs.h"
+#include <arpa/inet.h>
+#include <errno.h>
+#include <fcntl.h>
+#include <netinet/in.h>
 #include <pthread.h>
 #include <stdlib.h>
 #include <string.h>
+#include <sys/socket.h>
+#include <sys/un.h>
 #include <unistd.h>
 
 typedef int (*open_fn)(nng_socket *);
@@ -43,6 +49,13 @@ static const struct {
 #define NPP ((int) (sizeof(PP) / sizeof(PP[0])))
 
 static nng_socket A, B;
+// transport of the scripted exchange: the same scripts run over every stream transport, where
+// messages also sit in the transport's send queue, in partially written frames and in receive
+// buffers when an option changes, an operation is cancelled or an object is closed
+enum { TR_INPROC, TR_IPC, TR_TCP, TR_WS, TR_N };
+static const char *TRN[] = { "inproc", "ipc", "tcp", "ws" };
+static int         g_tran;
+static char        g_dialurl[200];
 static int        a_open, b_open;
 static int        destructive; // later steps may legitimately fail
 static int        g_pair, g_ninsert;
@@ -108,6 +121,52 @@ nop_cb(void *a)
 	(void) a;
 }
 
+// a send that is larger than the kernel's socket buffers (stream transports) stays in flight in the
+// transport until the peer reads; it is left pending while the script goes on and is collected at
+// the end: completed -> the library owns (and has released) the message, failed -> still ours.
+#define BIGSZ (3u << 20)
+static struct {
+	nng_aio *aio;
+	nng_msg *msg;
+} BIG[4];
+static int nbig, big_rv = -1;
+static void
+big_send(nng_socket s)
+{
+	if (nbig >= 4)
+		return;
+	nng_aio *aio;
+	nng_msg *m;
+	if (nng_aio_alloc(&aio, nop_cb, NULL) != 0 || nng_msg_alloc(&m, BIGSZ) != 0)
+		vs_fail("harness:setup", "big alloc");
+	memset(nng_msg_body(m), 0x5a, BIGSZ);
+	nng_aio_set_msg(aio, m);
+	nng_aio_set_timeout(aio, 200);
+	nng_socket_send(s, aio);
+	BIG[nbig].aio = aio;
+	BIG[nbig].msg = m;
+	nbig++;
+}
+static void
+big_collect(void)
+{
+	for (int i = 0; i < nbig; i++) {
+		nng_aio_wait(BIG[i].aio);
+		big_rv = nng_aio_result(BIG[i].aio);
+		if (nng_aio_result(BIG[i].aio) != 0) {
+			if (nng_aio_get_msg(BIG[i].aio) != BIG[i].msg)
+				vs_fail("C03:ownership:aio-msg-detached",
+				    "%s over %s: failed %u-byte aio send (%d) no longer carries "
+				    "the caller's message",
+				    PP[g_pair].name, TRN[g_tran], BIGSZ,
+				    nng_aio_result(BIG[i].aio));
+			nng_msg_free(BIG[i].msg);
+		}
+		nng_aio_free(BIG[i].aio);
+	}
+	nbig = 0;
+}
+
 // ---- perturbations ----------------------------------------------------------------
 enum {
 	K_NONE,
@@ -124,6 +183,7 @@ enum {
 	K_TIMED_SEND_B, K_TIMED_RECV_A,
 	K_EXTRA_SEND_B, K_EXTRA_SEND_A,
 	K_PIPE_CLOSE, K_PEER_LOSS_B, K_PEER_LOSS_A, K_SLEEP_5,
+	K_BIG_SEND_B, K_BIG_SEND_A,
 	K_N
 };
 static const char *KN[] = { "none", "recvbuf0(A)", "recvbuf1(A)", "recvbuf8(A)",
@@ -136,7 +196,7 @@ static const char *KN[] = { "none", "recvbuf0(A)", "recvbuf1(A)", "recvbuf8(A)",
 	"nonblock send(B)", "nonblock send(A)", "nonblock recv(A)",
 	"nonblock recv(B)", "send timeout 1ms(B)", "recv timeout 1ms(A)",
 	"extra send(B)", "extra send(A)", "pipe close", "close B", "close A",
-	"sleep 5ms" };
+	"sleep 5ms", "3 MB aio send left in flight(B)", "3 MB aio send left in flight(A)" };
 
 static void
 perturb(int k)
@@ -315,6 +375,14 @@ perturb(int k)
 	case K_SLEEP_5:
 		vs_sleep(5);
 		break;
+	case K_BIG_SEND_B:
+		if (b_open)
+			big_send(B);
+		break;
+	case K_BIG_SEND_A:
+		if (a_open)
+			big_send(A);
+		break;
 	}
 	vs_settle();
 }
@@ -327,8 +395,21 @@ static void
 step(int st)
 {
 	const int pat = PP[g_pair].pattern;
-	char      url[64];
-	snprintf(url, sizeof(url), "inproc://c03-%s", PP[g_pair].name);
+	char      url[200];
+	switch (g_tran) {
+	case TR_IPC:
+		snprintf(url, sizeof(url), "ipc://%s/c03-%d", vx_rundir(), (int) getpid());
+		break;
+	case TR_TCP:
+		snprintf(url, sizeof(url), "tcp://127.0.0.1:0");
+		break;
+	case TR_WS:
+		snprintf(url, sizeof(url), "ws://127.0.0.1:0/c03");
+		break;
+	default:
+		snprintf(url, sizeof(url), "inproc://c03-%s", PP[g_pair].name);
+		break;
+	}
 	switch (st) {
 	case S_OPEN:
 		VH_OK(PP[g_pair].a(&A));
@@ -345,11 +426,24 @@ step(int st)
 			VH_OK(nng_sub0_socket_subscribe(A, "", 0));
 		break;
 	case S_LISTEN:
-		if (a_open && nng_listen(A, url, NULL, 0) != 0 && !destructive)
-			vs_fail("harness:setup", "listen");
+		snprintf(g_dialurl, sizeof(g_dialurl), "%s", url);
+		if (g_tran == TR_TCP || g_tran == TR_WS) // nobody listens there
+			snprintf(g_dialurl, sizeof(g_dialurl), "%s://127.0.0.1:9%s",
+			    TRN[g_tran], g_tran == TR_WS ? "/c03" : "");
+		if (a_open) {
+			nng_listener l;
+			int          port = 0;
+			if (nng_listen(A, url, &l, 0) != 0) {
+				if (!destructive)
+					vs_fail("harness:setup", "listen");
+			} else if ((g_tran == TR_TCP || g_tran == TR_WS) &&
+			    nng_listener_get_int(l, NNG_OPT_BOUND_PORT, &port) == 0)
+				snprintf(g_dialurl, sizeof(g_dialurl), "%s://127.0.0.1:%d%s",
+				    TRN[g_tran], port, g_tran == TR_WS ? "/c03" : "");
+		}
 		break;
 	case S_DIAL:
-		if (b_open && nng_dial(B, url, NULL, NNG_FLAG_NONBLOCK) != 0 &&
+		if (b_open && nng_dial(B, g_dialurl, NULL, NNG_FLAG_NONBLOCK) != 0 &&
 		    !destructive)
 			vs_fail("harness:setup", "dial");
 		vs_settle();
@@ -417,15 +511,535 @@ run_script(void *arg)
 	for (int i = 0; i < g_ninsert; i++)
 		snprintf(desc + strlen(desc), sizeof(desc) - strlen(desc), "%s%s@%d",
 		    i ? " + " : "", KN[kind[i]], pos[i]);
-	vs_log("%s: %s", PP[g_pair].name, desc);
+	vs_log("%s over %s: %s", PP[g_pair].name, TRN[g_tran], desc);
+	if (g_tran == TR_TCP || g_tran == TR_WS)
+		vs_tcp_grace_us = 1500;
+	nbig = 0;
 	for (int st = 0; st < S_NSTEPS; st++) {
 		for (int i = 0; i < g_ninsert; i++)
 			if (pos[i] == st)
 				perturb(kind[i]);
 		step(st);
 	}
-	vs_outcome("%s", destructive ? "destructive" : "clean");
+	big_collect();
+	if (g_tran == TR_IPC) {
+		char path[200];
+		snprintf(path, sizeof(path), "%s/c03-%d", vx_rundir(), (int) getpid());
+		unlink(path);
+	}
+	vs_outcome("%s big=%d", destructive ? "destructive" : "clean", big_rv);
 	vh_fini(); // balance check: every block returned, with its size
+}
+
+// ---- stalled raw peer: messages held inside a stream transport when an object goes away ----------
+// The nng socket talks to a raw peer (the harness) over socket://, ipc, tcp or ws.  The peer does
+// not read, so a message larger than the kernel buffers is stuck half-written in the transport,
+// further messages wait in the protocol's send queue and (optionally) unread inbound messages sit
+// in the receive path.  Then one of the teardown / option / cancel events happens, in every
+// combination with what the peer does next.  Oracles: sanitizers, accounting allocator (every
+// block released once, with its size, nothing live after nng_fini), the failed-send ledger
+// (the message of a failed aio send is still attached and still the caller's), termination.
+enum { RT_SOCKFD, RT_IPC, RT_TCP, RT_WS, RT_N };
+static const char *RTN[] = { "socketfd", "ipc", "tcp", "ws" };
+static const struct {
+	const char *name;
+	open_fn     open;
+	uint16_t    peer; // protocol the raw peer speaks
+	int         inbound; // the nng side can receive from this peer
+} SP_[] = {
+	{ "pair0", nng_pair0_open, SP_PAIR0, 1 },
+	{ "push", nng_push0_open, SP_PULL, 0 },
+	{ "pub", nng_pub0_open, SP_SUB, 0 },
+	{ "bus", nng_bus0_open, SP_BUS, 1 },
+	{ "xreq", nng_req0_open_raw, SP_REP, 1 },
+	{ "pair1", nng_pair1_open, SP_PAIR1, 1 },
+};
+#define NSP ((int) (sizeof(SP_) / sizeof(SP_[0])))
+
+static int
+raw_fd_connect(int tran, const char *path, int port)
+{
+	int fd;
+	if (tran == RT_IPC) {
+		struct sockaddr_un sa;
+		memset(&sa, 0, sizeof(sa));
+		sa.sun_family = AF_UNIX;
+		snprintf(sa.sun_path, sizeof(sa.sun_path), "%s", path);
+		fd = socket(AF_UNIX, SOCK_STREAM, 0);
+		if (connect(fd, (struct sockaddr *) &sa, sizeof(sa)) != 0)
+			vs_fail("harness:peer", "ipc connect: %s", strerror(errno));
+	} else {
+		struct sockaddr_in sa;
+		memset(&sa, 0, sizeof(sa));
+		sa.sin_family      = AF_INET;
+		sa.sin_port        = htons((uint16_t) port);
+		sa.sin_addr.s_addr = htonl(INADDR_LOOPBACK);
+		fd                 = socket(AF_INET, SOCK_STREAM, 0);
+		int small          = 4096; // keep the window small: the sender must stall
+		setsockopt(fd, SOL_SOCKET, SO_RCVBUF, &small, sizeof(small));
+		if (connect(fd, (struct sockaddr *) &sa, sizeof(sa)) != 0)
+			vs_fail("harness:peer", "tcp connect: %s", strerror(errno));
+	}
+	fcntl(fd, F_SETFL, fcntl(fd, F_GETFL) | O_NONBLOCK);
+	fcntl(fd, F_SETFD, FD_CLOEXEC);
+	vs_settle();
+	return fd;
+}
+
+// minimal websocket client side: upgrade request, masked frames
+static int
+ws_upgrade(int fd, const char *path, const char *proto)
+{
+	char req[400], resp[2048], ph[100] = "";
+	if (proto)
+		snprintf(ph, sizeof(ph), "Sec-WebSocket-Protocol: %s\r\n", proto);
+	int n = snprintf(req, sizeof(req),
+	    "GET %s HTTP/1.1\r\nHost: 127.0.0.1\r\nUpgrade: websocket\r\n"
+	    "Connection: Upgrade\r\nSec-WebSocket-Key: dGhlIHNhbXBsZSBub25jZQ==\r\n"
+	    "Sec-WebSocket-Version: 13\r\n%s\r\n",
+	    path, ph);
+	vp_write_all(fd, req, (size_t) n);
+	vs_settle();
+	size_t got = 0;
+	for (int t = 0; t < 20; t++) {
+		ssize_t r = vp_read_avail(fd, resp + got, sizeof(resp) - 1 - got);
+		if (r < 0)
+			return 0;
+		got += (size_t) r;
+		resp[got] = 0;
+		if (strstr(resp, "\r\n\r\n"))
+			return strncmp(resp, "HTTP/1.1 101", 12) == 0;
+		vs_sleep(2);
+	}
+	return 0;
+}
+static size_t
+ws_frame(uint8_t *o, int op, int fin, const uint8_t *pay, size_t len)
+{
+	static const uint8_t key[4] = { 0x11, 0x22, 0x33, 0x44 };
+	size_t               p      = 0;
+	o[p++] = (uint8_t) ((fin ? 0x80 : 0) | (op & 15));
+	if (len < 126)
+		o[p++] = 0x80 | (uint8_t) len;
+	else {
+		o[p++] = 0x80 | 126;
+		o[p++] = (uint8_t) (len >> 8);
+		o[p++] = (uint8_t) len;
+	}
+	memcpy(o + p, key, 4);
+	p += 4;
+	for (size_t j = 0; j < len; j++)
+		o[p++] = pay[j] ^ key[j & 3];
+	return p;
+}
+
+// read and discard up to `max` bytes from the raw fd; returns bytes read, sets *eof
+static size_t
+raw_discard(int fd, size_t max, int *eof)
+{
+	static uint8_t junk[1 << 16];
+	size_t         tot = 0;
+	int            idle = 0;
+	*eof = 0;
+	while (tot < max && idle < 3) {
+		size_t  want = max - tot < sizeof(junk) ? max - tot : sizeof(junk);
+		ssize_t n    = vp_read_avail(fd, junk, want);
+		if (n < 0) {
+			*eof = 1;
+			break;
+		}
+		if (n == 0) {
+			idle++;
+			vs_settle();
+			continue;
+		}
+		idle = 0;
+		tot += (size_t) n;
+	}
+	return tot;
+}
+
+enum {
+	EV_SOCK_CLOSE,      // nng_socket_close with everything pending
+	EV_PIPE_CLOSE,      // nng_pipe_close, then the socket
+	EV_PEER_CLOSE,      // the peer closes without reading
+	EV_PEER_READ_SOME,  // the peer reads 64 KB, then closes
+	EV_PEER_DRAIN,      // the peer reads everything, then the socket is closed
+	EV_SENDBUF,         // SENDBUF 0, then 8, then close
+	EV_CANCEL_BIG,      // cancel the big send, the peer drains
+	EV_EP_CLOSE,        // close the listener, then the socket
+	EV_TIMEOUT,         // let the send timeouts expire (virtual), then close
+	EV_N
+};
+static const char *EVN[] = { "socket-close", "pipe-close", "peer-close",
+	"peer-reads-64k-closes", "peer-drains", "sendbuf-0-8", "cancel-big",
+	"listener-close", "send-timeouts" };
+
+static void
+run_stalled(void *arg)
+{
+	int tran = (int) (intptr_t) arg / 16, pi = (int) (intptr_t) arg % 16;
+	if (tran == RT_TCP || tran == RT_WS)
+		vs_tcp_grace_us = 1500;
+	vh_init(1);
+	nng_socket   s;
+	nng_listener l;
+	char         path[160] = "", url[200];
+	int          port = 0, fd = -1, eof = 0;
+	have_pipe = 0;
+	VH_OK(SP_[pi].open(&s));
+	VH_OK(nng_socket_set_int(s, NNG_OPT_SENDBUF, 2));
+	VH_OK(nng_socket_set_int(s, NNG_OPT_RECVBUF, 2));
+	VH_OK(nng_socket_set_ms(s, NNG_OPT_SENDTIMEO, 50));
+	VH_OK(nng_socket_set_ms(s, NNG_OPT_RECVTIMEO, 5));
+	(void) nng_pipe_notify(s, NNG_PIPE_EV_ADD_POST, pcb, NULL);
+	switch (tran) {
+	case RT_SOCKFD:
+		fd = vp_connect_raw(s, SP_[pi].peer, &l);
+		break;
+	case RT_IPC:
+		snprintf(path, sizeof(path), "%s/c03s-%d", vx_rundir(), (int) getpid());
+		snprintf(url, sizeof(url), "ipc://%s", path);
+		VH_OK(nng_listen(s, url, &l, 0));
+		fd = raw_fd_connect(tran, path, 0);
+		if (vp_handshake(fd, SP_[pi].peer) < 0)
+			vs_fail("harness:peer", "ipc handshake");
+		break;
+	case RT_TCP:
+		VH_OK(nng_listen(s, "tcp://127.0.0.1:0", &l, 0));
+		VH_OK(nng_listener_get_int(l, NNG_OPT_BOUND_PORT, &port));
+		fd = raw_fd_connect(tran, NULL, port);
+		if (vp_handshake(fd, SP_[pi].peer) < 0)
+			vs_fail("harness:peer", "tcp handshake");
+		break;
+	default:
+		VH_OK(nng_listen(s, "ws://127.0.0.1:0/c03", &l, 0));
+		VH_OK(nng_listener_get_int(l, NNG_OPT_BOUND_PORT, &port));
+		fd = raw_fd_connect(tran, NULL, port);
+		if (!ws_upgrade(fd, "/c03", "pair.sp.nanomsg.org"))
+			vs_fail("harness:peer", "ws upgrade");
+		break;
+	}
+	if (fd < 0)
+		vs_fail("harness:peer", "raw connect");
+	vs_settle();
+	int ev      = vs_choose(VK_ENV, EV_N);
+	int inbound = SP_[pi].inbound ? vs_choose(VK_ENV, 2) : 0;
+	int nsmall  = vs_choose(VK_ENV, 2) ? 4 : 0;
+	vs_log("%s over %s: %s inbound=%d small=%d", SP_[pi].name, RTN[tran], EVN[ev],
+	    inbound, nsmall);
+	if (inbound) {
+		// three unread messages for the receive path (buffer depth 2 + one at the pipe)
+		for (int i = 0; i < 3; i++) {
+			uint8_t  f[64], w[80];
+			uint8_t  hdr[4] = { 0x80, 0, 0, (uint8_t) i }; // request id (xreq) / hop 1 (pair1)
+			size_t   hl     = 0;
+			if (SP_[pi].peer == SP_REP)
+				hl = 4;
+			if (SP_[pi].peer == SP_PAIR1) {
+				hdr[0] = 0;
+				hdr[3] = 1;
+				hl     = 4;
+			}
+			size_t n = vp_frame(f, hdr, hl, "inbound", 7, tran == RT_IPC);
+			if (tran == RT_WS) {
+				// ws carries the SP message (without length prefix) in one binary frame
+				size_t wl = ws_frame(w, 2, 1, f + 8, n - 8);
+				vp_write_all(fd, w, wl);
+			} else
+				vp_write_all(fd, f, n);
+		}
+		vs_settle();
+	}
+	size_t bigsz = (tran == RT_TCP || tran == RT_WS) ? (6u << 20) : (1u << 20);
+	nng_aio *big;
+	nng_msg *bm;
+	VH_OK(nng_aio_alloc(&big, nop_cb, NULL));
+	VH_OK(nng_msg_alloc(&bm, bigsz));
+	memset(nng_msg_body(bm), 0x42, bigsz);
+	if (SP_[pi].peer == SP_REP) {
+		uint8_t id[4] = { 0x80, 0, 0, 9 };
+		nng_msg_header_append(bm, id, 4);
+	}
+	nng_aio_set_msg(big, bm);
+	nng_aio_set_timeout(big, 100);
+	nng_socket_send(s, big);
+	vs_settle();
+	int small_ok = 0;
+	for (int i = 0; i < nsmall; i++) {
+		nng_msg *m;
+		VH_OK(nng_msg_alloc(&m, 100));
+		if (SP_[pi].peer == SP_REP) {
+			uint8_t id[4] = { 0x80, 0, 0, (uint8_t) (10 + i) };
+			nng_msg_header_append(m, id, 4);
+		}
+		int rv = nng_sendmsg(s, m, NNG_FLAG_NONBLOCK);
+		if (rv != 0)
+			nng_msg_free(m);
+		else
+			small_ok++;
+		vs_settle();
+	}
+	switch (ev) {
+	case EV_SOCK_CLOSE:
+		break;
+	case EV_PIPE_CLOSE:
+		if (have_pipe)
+			(void) nng_pipe_close(last_pipe);
+		vs_settle();
+		break;
+	case EV_PEER_CLOSE:
+		close(fd);
+		fd = -1;
+		vs_settle();
+		break;
+	case EV_PEER_READ_SOME:
+		(void) raw_discard(fd, 65536, &eof);
+		close(fd);
+		fd = -1;
+		vs_settle();
+		break;
+	case EV_PEER_DRAIN:
+		(void) raw_discard(fd, (size_t) 64 << 20, &eof);
+		break;
+	case EV_SENDBUF:
+		(void) nng_socket_set_int(s, NNG_OPT_SENDBUF, 0);
+		vs_settle();
+		(void) nng_socket_set_int(s, NNG_OPT_SENDBUF, 8);
+		vs_settle();
+		break;
+	case EV_CANCEL_BIG:
+		nng_aio_cancel(big);
+		vs_settle();
+		(void) raw_discard(fd, (size_t) 64 << 20, &eof);
+		break;
+	case EV_EP_CLOSE:
+		(void) nng_listener_close(l);
+		vs_settle();
+		break;
+	case EV_TIMEOUT:
+		vs_sleep(120);
+		break;
+	}
+	if (inbound && ev != EV_SOCK_CLOSE)
+		(void) rcv(s, 0); // one of the queued messages is consumed, the others stay
+	if (nng_socket_close(s) != 0)
+		vs_fail("C03:close", "close failed");
+	nng_aio_wait(big);
+	int brv = nng_aio_result(big);
+	if (brv != 0) {
+		if (nng_aio_get_msg(big) != bm)
+			vs_fail("C03:ownership:aio-msg-detached",
+			    "%s over %s, %s: the failed %zu-byte aio send (%s) no longer "
+			    "carries the caller's message",
+			    SP_[pi].name, RTN[tran], EVN[ev], bigsz, nng_strerror(brv));
+		nng_msg_free(bm);
+	}
+	nng_aio_free(big);
+	if (fd >= 0)
+		close(fd);
+	if (path[0])
+		unlink(path);
+	vs_nontrivial();
+	vs_outcome("%s big=%d small=%d", EVN[ev], brv, small_ok);
+	vh_fini();
+}
+
+// ---- websocket control frames around the end of a connection ----------------------------------------
+// raw websocket client <-> nng PAIR0 listener.  The client sends k PING frames and then ends the
+// connection in one of several ways, all in ONE write, optionally while the application has a
+// fragmented message in flight towards a client that is not reading.  The PONG replies, the close
+// frame and the data fragments then share the transmit queue when the connection dies.
+enum { WE_CLOSE_FRAME, WE_VIOLATION, WE_EOF, WE_APP_CLOSE, WE_APP_PIPE_CLOSE, WE_N };
+static const char *WEN[] = { "peer-close-frame", "peer-protocol-violation", "peer-eof",
+	"app-socket-close", "app-pipe-close" };
+static void
+run_wsctl(void *arg)
+{
+	(void) arg;
+	vs_tcp_grace_us = 1500;
+	vh_init(1);
+	nng_socket   s;
+	nng_listener l;
+	int          port = 0, eof = 0;
+	have_pipe = 0;
+	VH_OK(nng_pair0_open(&s));
+	VH_OK(nng_socket_set_ms(s, NNG_OPT_SENDTIMEO, 50));
+	(void) nng_pipe_notify(s, NNG_PIPE_EV_ADD_POST, pcb, NULL);
+	VH_OK(nng_listener_create(&l, s, "ws://127.0.0.1:0/c03"));
+	VH_OK(nng_listener_set_size(l, NNG_OPT_WS_SENDMAXFRAME, 65536));
+	VH_OK(nng_listener_start(l, 0));
+	VH_OK(nng_listener_get_int(l, NNG_OPT_BOUND_PORT, &port));
+	int fd = raw_fd_connect(RT_WS, NULL, port);
+	if (!ws_upgrade(fd, "/c03", "pair.sp.nanomsg.org"))
+		vs_fail("harness:peer", "ws upgrade");
+	vs_settle();
+	int npings = vs_choose(VK_ENV, 4);
+	int ending = vs_choose(VK_ENV, WE_N);
+	int inflt  = vs_choose(VK_ENV, 3); // nothing / small send / 6 MB send stalled
+	int drain  = vs_choose(VK_ENV, 2); // the client reads what is pending before it goes away
+	vs_log("pings=%d ending=%s inflight=%d drain=%d", npings, WEN[ending], inflt, drain);
+	nng_aio *aio = NULL;
+	nng_msg *m   = NULL;
+	if (inflt) {
+		size_t sz = inflt == 1 ? 300 : (6u << 20);
+		VH_OK(nng_aio_alloc(&aio, nop_cb, NULL));
+		VH_OK(nng_msg_alloc(&m, sz));
+		memset(nng_msg_body(m), 0x37, sz);
+		nng_aio_set_msg(aio, m);
+		nng_aio_set_timeout(aio, 100);
+		nng_socket_send(s, aio);
+		vs_settle();
+	}
+	uint8_t wire[512];
+	size_t  wl = 0;
+	for (int i = 0; i < npings; i++)
+		wl += ws_frame(wire + wl, 9, 1, (const uint8_t *) "pingping", 8);
+	if (ending == WE_CLOSE_FRAME) {
+		uint8_t code[2] = { 0x03, 0xe8 };
+		wl += ws_frame(wire + wl, 8, 1, code, 2);
+	} else if (ending == WE_VIOLATION)
+		wl += ws_frame(wire + wl, 0, 1, (const uint8_t *) "x", 1); // continuation without start
+	vs_window(1);
+	if (wl)
+		vp_write_all(fd, wire, wl);
+	if (ending == WE_EOF && !drain) {
+		close(fd);
+		fd = -1;
+	}
+	if (ending == WE_APP_CLOSE) {
+		vs_settle();
+		vs_window(0);
+		if (drain)
+			(void) raw_discard(fd, (size_t) 64 << 20, &eof);
+		if (nng_socket_close(s) != 0)
+			vs_fail("C03:close", "close failed");
+	} else {
+		if (ending == WE_APP_PIPE_CLOSE && have_pipe)
+			(void) nng_pipe_close(last_pipe);
+		vs_settle();
+		vs_window(0);
+		if (drain && fd >= 0)
+			vs_log("drained %zu eof=%d", raw_discard(fd, (size_t) 64 << 20, &eof), eof);
+		vs_sleep(150);
+		if (fd >= 0) {
+			(void) raw_discard(fd, (size_t) 64 << 20, &eof);
+			close(fd);
+			fd = -1;
+		}
+		vs_settle();
+		if (nng_socket_close(s) != 0)
+			vs_fail("C03:close", "close failed");
+	}
+	int rv = -1;
+	if (aio) {
+		nng_aio_wait(aio);
+		rv = nng_aio_result(aio);
+		if (rv != 0) {
+			if (nng_aio_get_msg(aio) != m)
+				vs_fail("C03:ownership:aio-msg-detached",
+				    "ws, %s: the failed aio send (%s) no longer carries the "
+				    "caller's message",
+				    WEN[ending], nng_strerror(rv));
+			nng_msg_free(m);
+		}
+		nng_aio_free(aio);
+	}
+	if (fd >= 0)
+		close(fd);
+	vs_nontrivial();
+	vs_outcome("%s pings=%d send=%d", WEN[ending], npings, rv);
+	vh_fini();
+}
+
+// the same through the public byte-stream API (nng_stream over ws://): here the application, not an
+// SP pipe, decides when the stream is closed, so the closing handshake runs to its end while
+// control-frame replies are still queued behind it.
+static void
+run_wsstream(void *arg)
+{
+	(void) arg;
+	vs_tcp_grace_us = 1500;
+	vh_init(1);
+	nng_stream_listener *sl;
+	nng_stream          *st = NULL;
+	nng_aio             *acc, *rx, *tx = NULL;
+	int                  port = 0, eof = 0;
+	static uint8_t       rbuf[4096];
+	uint8_t             *tbuf = NULL;
+	VH_OK(nng_stream_listener_alloc(&sl, "ws://127.0.0.1:0/c03s"));
+	VH_OK(nng_stream_listener_listen(sl));
+	VH_OK(nng_stream_listener_get_int(sl, NNG_OPT_BOUND_PORT, &port));
+	VH_OK(nng_aio_alloc(&acc, NULL, NULL));
+	VH_OK(nng_aio_alloc(&rx, NULL, NULL));
+	nng_stream_listener_accept(sl, acc);
+	int fd = raw_fd_connect(RT_WS, NULL, port);
+	if (!ws_upgrade(fd, "/c03s", NULL))
+		vs_fail("harness:peer", "ws upgrade (stream)");
+	vs_settle();
+	nng_aio_wait(acc);
+	if (nng_aio_result(acc) != 0)
+		vs_fail("harness:peer", "accept: %s", nng_strerror(nng_aio_result(acc)));
+	st = nng_aio_get_output(acc, 0);
+	int T      = vx_is_thorough();
+	int npings = T ? 1 + vs_choose(VK_ENV, 3) : 2;
+	int ending = vs_choose(VK_ENV, 3); // close frame / violation / eof
+	int inflt  = vs_choose(VK_ENV, T ? 3 : 2); // nothing / small / 6 MB stalled
+	int rxpend = vs_choose(VK_ENV, 2);
+	vs_log("stream: pings=%d ending=%d inflight=%d rx=%d", npings, ending, inflt, rxpend);
+	if (rxpend) {
+		nng_iov iov = { .iov_buf = rbuf, .iov_len = sizeof(rbuf) };
+		nng_aio_set_iov(rx, 1, &iov);
+		nng_stream_recv(st, rx);
+	}
+	if (inflt) {
+		size_t sz = inflt == 1 ? 300 : (6u << 20);
+		tbuf      = malloc(sz);
+		memset(tbuf, 0x55, sz);
+		nng_iov iov = { .iov_buf = tbuf, .iov_len = sz };
+		VH_OK(nng_aio_alloc(&tx, NULL, NULL));
+		nng_aio_set_iov(tx, 1, &iov);
+		nng_aio_set_timeout(tx, 100);
+		nng_stream_send(st, tx);
+	}
+	vs_settle();
+	uint8_t wire[512];
+	size_t  wl = 0;
+	for (int i = 0; i < npings; i++)
+		wl += ws_frame(wire + wl, 9, 1, (const uint8_t *) "pingping", 8);
+	if (ending == 0) {
+		uint8_t code[2] = { 0x03, 0xe8 };
+		wl += ws_frame(wire + wl, 8, 1, code, 2);
+	} else if (ending == 1)
+		wl += ws_frame(wire + wl, 0, 1, (const uint8_t *) "x", 1);
+	vs_window(1);
+	vp_write_all(fd, wire, wl);
+	vs_settle();
+	vs_window(0);
+	// the peer reads what it was sent (pongs, close frame), then goes away
+	(void) raw_discard(fd, (size_t) 64 << 20, &eof);
+	vs_sleep(150);
+	(void) raw_discard(fd, (size_t) 64 << 20, &eof);
+	close(fd);
+	vs_settle();
+	if (rxpend)
+		nng_aio_wait(rx);
+	nng_stream_close(st);
+	if (tx) {
+		nng_aio_wait(tx);
+		nng_aio_free(tx);
+	}
+	nng_stream_stop(st);
+	nng_stream_free(st);
+	nng_aio_free(rx);
+	nng_aio_free(acc);
+	nng_stream_listener_close(sl);
+	nng_stream_listener_stop(sl);
+	nng_stream_listener_free(sl);
+	free(tbuf);
+	vs_nontrivial();
+	vs_outcome("stream e%d p%d i%d r%d", ending, npings, inflt, rxpend);
+	vh_fini();
 }
 
 // ---- device scenario ----------------------------------------------------------------------
@@ -708,11 +1322,56 @@ main(int argc, char **argv)
 {
 	vx_init(argc, argv, "C03");
 	int T = vx_is_thorough();
-	for (g_pair = 0; g_pair < NPP; g_pair++) {
-		char name[60];
-		g_ninsert = 1;
-		snprintf(name, sizeof(name), "%s-1ins", PP[g_pair].name);
-		explore(strdup(name), run_script);
+	for (g_tran = 0; g_tran < TR_N; g_tran++)
+		for (g_pair = 0; g_pair < NPP; g_pair++) {
+			char name[60];
+			g_ninsert = 1;
+			// quick: every pairing over inproc and ipc, the cooked ones over tcp and ws
+			if (!T && g_tran >= TR_TCP && g_pair >= 7)
+				continue;
+			snprintf(name, sizeof(name), "%s-1ins%s%s", PP[g_pair].name,
+			    g_tran ? "-" : "", g_tran ? TRN[g_tran] : "");
+			explore(strdup(name), run_script);
+		}
+	g_tran = TR_INPROC;
+	for (int tr = 0; tr < RT_N; tr++)
+		for (int pi = 0; pi < (tr == RT_WS ? 1 : NSP); pi++) {
+			char name[60];
+			if (!T && tr != RT_SOCKFD && pi >= 3)
+				continue; // quick: every protocol over socket://, three over ipc/tcp
+			snprintf(name, sizeof(name), "stalled-%s-%s", SP_[pi].name, RTN[tr]);
+			vx_cfg c;
+			memset(&c, 0, sizeof(c));
+			c.prop           = "C03";
+			c.scenario       = strdup(name);
+			c.run            = run_stalled;
+			c.arg            = (void *) (intptr_t) (tr * 16 + pi);
+			c.budget[VB_ENV] = -1;
+			vx_explore(&c, NULL);
+		}
+	{
+		vx_cfg c;
+		memset(&c, 0, sizeof(c));
+		c.prop               = "C03";
+		c.scenario           = "ws-control-teardown";
+		c.run                = run_wsctl;
+		c.budget[VB_ENV]     = -1;
+		c.budget[VB_PREEMPT] = T ? 1 : 0;
+		c.budget[VB_SWITCH]  = 1;
+		c.total              = 1;
+		vx_explore(&c, NULL);
+	}
+	{
+		vx_cfg c;
+		memset(&c, 0, sizeof(c));
+		c.prop               = "C03";
+		c.scenario           = "ws-stream-control-teardown";
+		c.run                = run_wsstream;
+		c.budget[VB_ENV]     = -1;
+		c.budget[VB_PREEMPT] = 1;
+		c.budget[VB_SWITCH]  = 1;
+		c.total              = 1;
+		vx_explore(&c, NULL);
 	}
 	explore("device", run_device);
 	for (int k = 0; k < 3; k++)
